@@ -83,6 +83,9 @@ func parsePattern(p string) ([]ptok, error) {
 				if c == '[' {
 					if j+1 < len(rs) && (rs[j+1] == ':' || rs[j+1] == '.' || rs[j+1] == '=') {
 						kind := rs[j+1]
+						if kind != ':' {
+							return nil, errAbstain // collating symbols / equivalence classes, closed or not
+						}
 						end := strings.Index(string(rs[j+2:]), string(kind)+"]")
 						if end < 0 {
 							return nil, errMalformed
@@ -95,7 +98,8 @@ func parsePattern(p string) ([]ptok, error) {
 						j += 2 + len([]rune(name)) + 2
 						continue
 					}
-					return nil, errAbstain // '[' inside a bracket expression
+					// a '[' that starts neither a class, a collating symbol nor an
+					// equivalence class is an ordinary member (or the start of a range)
 				}
 				if j+2 < len(rs) && rs[j+1] == '-' && rs[j+2] != ']' {
 					hi := rs[j+2]
@@ -339,7 +343,7 @@ func runMatch(tier string, seed int64) (string, bool) {
 	// bracket expressions, exhaustively: optional negation, up to three members
 	// (a leading "]" is a member; "*", "?" and regexp metacharacters inside a
 	// bracket stand for themselves), alone and followed by a star
-	members := []string{"]", "a", "*", "?", "-", "!", "(", ".", "\\-", "\\]", "\\\\", "z"}
+	members := []string{"]", "a", "*", "?", "-", "!", "(", ".", "\\-", "\\]", "\\\\", "z", "["}
 	var sets []string
 	for _, neg := range []string{"", "!", "^"} {
 		for _, ms := range words(members, 3) {
